@@ -38,6 +38,8 @@ COMMON = {
     # typed entries of the page's resources with the wrong arity / type (an ExtGState's /Font pair, the page's boxes)
     "gsfont3":    ("object", False, False, ["three", "one", "empty", "name", "nested"]),
     "mediabox3":  ("object", False, False, ["three", "five", "empty", "refs", "names"]),
+    # the page tree root naming a parent: itself, itself under another generation number, its own kid, nothing that exists
+    "parent2":    ("object", True, True, ["self", "self_gen1", "kid", "dangling"]),
     "truncate":   ("object", False, False, None),      # values t<k>: cut the file after the k-th token; filled in per layout
 }
 FAULTS["classic"] = dict(COMMON, **{
@@ -225,7 +227,8 @@ def _base_objects(layout, d):
         return rc4(_objkey(key, oid), data) if enc else data
     objs = {}
     objs[1] = Obj(1, b"<< /Type /Catalog /Pages 2 0 R /Lang " + s(1, b"en") + b" >>")
-    objs[2] = Obj(2, b"<< /Type /Pages /Kids [3 0 R] /Count 1 >>")
+    par = {"self": b" /Parent 2 0 R", "self_gen1": b" /Parent 2 1 R", "kid": b" /Parent 3 0 R", "dangling": b" /Parent 97 0 R"}.get(d.get("parent2"), b"")
+    objs[2] = Obj(2, b"<< /Type /Pages /Kids [3 0 R] /Count 1" + par + b" >>")
     gsf = {"three": b"[5 0 R 12 0]", "one": b"[5 0 R]", "empty": b"[ ]", "name": b"/F1", "nested": b"[[5 0 R 12]]"}.get(d.get("gsfont3"), b"[5 0 R 12]")
     mbox = {"three": b"[0 0 100]", "five": b"[0 0 100 100 100]", "empty": b"[ ]", "refs": b"[5 0 R 5 0 R 5 0 R 5 0 R]", "names": b"[/a /b /c /d]"}.get(d.get("mediabox3"), b"[0 0 100 100]")
     objs[3] = Obj(3, b"<< /Type /Page /Parent 2 0 R /MediaBox " + mbox + b" /Contents 4 0 R /Resources << /Font << /F1 5 0 R >> /XObject << /Im1 7 0 R >> /ExtGState << /G1 << /Type /ExtGState /LW 1 /Font " + gsf + b" >> >> >> /Deep "
